@@ -18,7 +18,8 @@ EXPLANATION = (
     "read every non-location field; R3 literals: signed integers print with {} and bit integers with {:#x} (both lex back "
     "to integer literals), strings through ascii::escape_default whose escapes are in the string escape table; "
     "R4 indentation only ever increases by one level per nesting (Indentation::increased) and nested output is embedded "
-    "unchanged.")
+    "unchanged."
+    " ADDED LATER: R5 fragments printed for parser-built nodes must lex (`#` annotations: known finding), every declaration kind prints `pub` and `extern` through independent tests, import paths are printed escaped.")
 
 RB = "alpha::rebuilder::"
 ALLOWED_IGNORED = {"location", "location_of_declaration", "location_of_type", "location_of_return_type", "location_of_op",
